@@ -6,10 +6,12 @@ import (
 	"fmt"
 
 	"github.com/tellor-io/layer/x/oracle/types"
+	regtypes "github.com/tellor-io/layer/x/registry/types"
 
 	errorsmod "cosmossdk.io/errors"
 
 	sdk "github.com/cosmos/cosmos-sdk/types"
+	sdkerrors "github.com/cosmos/cosmos-sdk/types/errors"
 )
 
 // UpdateCyclelist updates the cyclelist with the provided list of queryData.
@@ -19,6 +21,21 @@ import (
 func (k msgServer) UpdateCyclelist(ctx context.Context, req *types.MsgUpdateCyclelist) (*types.MsgUpdateCyclelistResponse, error) {
 	if k.keeper.GetAuthority() != req.Authority {
 		return nil, errorsmod.Wrapf(types.ErrInvalidSigner, "invalid authority; expected %s, got %s", k.keeper.GetAuthority(), req.Authority)
+	}
+
+	// every entry is later decoded and initialized in the end blocker when the list rotates,
+	// where a failure cannot be rejected any more: validate the new list here
+	if len(req.Cyclelist) == 0 {
+		return nil, errorsmod.Wrap(sdkerrors.ErrInvalidRequest, "cyclelist cannot be empty")
+	}
+	for _, queryData := range req.Cyclelist {
+		queryType, _, err := regtypes.DecodeQueryType(queryData)
+		if err != nil {
+			return nil, errorsmod.Wrapf(sdkerrors.ErrInvalidRequest, "invalid query data in cyclelist: %v", err)
+		}
+		if _, err := k.keeper.GetDataSpec(ctx, queryType); err != nil {
+			return nil, errorsmod.Wrapf(sdkerrors.ErrInvalidRequest, "no data spec registered for query type %s: %v", queryType, err)
+		}
 	}
 
 	if err := k.keeper.Cyclelist.Clear(ctx, nil); err != nil {
